@@ -47,6 +47,7 @@ def streams(rng, tier, boost):
     # the known finding is exercised once it is listed in known_findings.json (until then the stream would fail the check)
     if any(k.get('id') == CLASH_ID for k in core.load_known(ID)) or os.environ.get('VERIF_C14_CLASH'):
         out += clash_cases()
+    out += row_cases()
     listed = {k.get('id') for k in core.load_known(ID)}
     if (ROW_ID in listed and THM_ID in listed) or os.environ.get('VERIF_C14_MATH'):
         out += math_cases()
@@ -84,6 +85,18 @@ def math_cases():
     return out
 
 
+def row_cases():
+    """XHTML: \\ref to labelled rows of multi-row eqnarray environments (the XHTML template prints <tr id=...> per row)"""
+    out = []
+    src = ('\\documentclass{article}\n\\begin{document}\nzw1x \\ref{eq2}\n\\section{zt1x}\n'
+           '\\begin{eqnarray}\na &=& b \\label{eq1}\\\\\nc &=& d \\label{eq2}\\\\\ne &=& f \\label{eq3}\n\\end{eqnarray}\n'
+           'zw2x \\ref{eq3} \\ref{eq1}\n\\section{zt2x}\n\\begin{eqnarray}\ng &=& h \\label{eq4}\\\\\ni &=& j \\label{eq5}\n\\end{eqnarray}\nzw3x \\ref{eq5} \\ref{eq2}\n\\end{document}\n')
+    for split in (1, -10, 0):
+        cfg = dict(renderer='xhtml', split=split, filename=rd.TEMPLATES[0], bad=None, base='', tocdepth=3, tocnonfiles=False, crumbs=False, localtoc=False)
+        out.append(('math-rows-xhtml', {'doc': {'raw': src}, 'cfg': cfg}))
+    return out
+
+
 def search_streams(rng, tier):
     return [('search', {'doc': rd.gen_doc(rng), 'cfg': rd.gen_cfg(rng)}) for _ in range(60)]
 
@@ -102,7 +115,8 @@ def shrink(case):
 
 def doc_ids(tree):
     """identifiers that belong to nodes of the document (list items excluded: the shipped list templates may or may not print them)"""
-    return {n[4] for n, _ in rd.tree_nodes(tree) if n[4] is not None and n[1] != rd.K_ITEM}
+    # (mathematics is outside the template table of the Model: its identifiers are checked by the oracle only)
+    return {n[4] for n, _ in rd.tree_nodes(tree) if n[4] is not None and n[1] != rd.K_ITEM and n[8] not in ('ArrayRow', 'eqnarray', 'ArrayCell')}
 
 
 def observe(rec):
